@@ -621,6 +621,63 @@ pub fn run_rendezvous(seed: u64, k: usize, n_ent: usize, with_children: bool) ->
 
 //-------------------------------------------------------------------------------------------------------------------
 
+/// Burst stage (single-threaded): `n` entities (some with a child, some with several clones) lose all their clones, then
+/// exactly ONE collection runs (a direct `garbage_collect_entities` or one `App::update`): none may be gone before it,
+/// every one must be gone after it, however many there are (seed C10i: a collector that takes a bounded batch per call).
+pub fn run_burst(seed: u64, n: usize, via_update: bool) -> (Vec<(String, String)>, u64) {
+    let mut r = Rng::new(seed);
+    let mut violations = vec![];
+    let mut app = build_app(seed as usize);
+    let ents: Vec<Entity> = (0..n).map(|_| app.world_mut().spawn_empty().id()).collect();
+    let mut kids = vec![];
+    let mut signals: Vec<AutoDespawnSignal> = vec![];
+    for (i, e) in ents.iter().enumerate() {
+        if i % 5 == 0 {
+            let c = app.world_mut().spawn_empty().id();
+            app.world_mut().entity_mut(c).set_parent(*e);
+            kids.push(c);
+        }
+        let s = app.world().resource::<AutoDespawner>().prepare(*e);
+        for _ in 0..r.range(0, 2) {
+            signals.push(s.clone());
+        }
+        signals.push(s);
+    }
+    // drop in a seeded order
+    while !signals.is_empty() {
+        let k = r.range(0, signals.len() - 1);
+        drop(signals.swap_remove(k));
+    }
+    if let Some(i) = ents.iter().position(|e| app.world().get_entity(*e).is_err()) {
+        violations.push(("C10/despawned-outside-a-collection".to_string(), format!("burst of {n}: entity {i} was gone before any collection ran")));
+    }
+    let ok = std::panic::catch_unwind(std::panic::AssertUnwindSafe(|| {
+        if via_update {
+            app.update();
+        } else {
+            garbage_collect_entities(app.world_mut());
+        }
+    }))
+    .is_ok();
+    if !ok {
+        violations.push(("C10/gc-panicked".to_string(), format!("burst of {n}: the collection panicked")));
+        std::mem::forget(app);
+        return (violations, 0);
+    }
+    let left = ents.iter().filter(|e| app.world().get_entity(**e).is_ok()).count();
+    if left > 0 {
+        violations.push((
+            "C10/alive-after-first-gc-after-last-drop".to_string(),
+            format!("burst: {left} of {n} entities whose clones had all been dropped survived the first collection ({})", if via_update { "App::update" } else { "garbage_collect_entities" }),
+        ));
+    }
+    let kids_left = kids.iter().filter(|c| app.world().get_entity(**c).is_ok()).count();
+    if kids_left > 0 && left == 0 {
+        violations.push(("C10/descendant-survived".to_string(), format!("burst of {n}: {kids_left} children survived their parents' auto-despawn")));
+    }
+    (violations, n as u64)
+}
+
 pub struct C10Config {
     pub tier: String,
     pub seed: u64,
@@ -706,6 +763,23 @@ pub fn run_check(cfg: &C10Config) -> (usize, Option<String>) {
         }
     }
     samples.push(json!({"rendezvous_rounds": rounds, "entities_whose_last_clones_were_dropped_together": rv_entities, "of_which_the_drop_calls_overlapped_in_time": rv_overlapped}));
+    // burst rounds
+    let bursts = if cfg.trials == 0 { 0 } else if cfg.small { 2 } else { (cfg.trials / 3).max(40) };
+    let mut burst_entities = 0u64;
+    let mut burst_max = 0usize;
+    for k in 0..bursts {
+        let mut r = Rng::new(cfg.seed.wrapping_mul(7919).wrapping_add(k as u64));
+        let n = if cfg.small { r.range(3, 8) } else if k % 4 == 0 { r.range(1, 70) } else { r.range(60, 700) };
+        burst_max = burst_max.max(n);
+        let bseed = cfg.seed.wrapping_mul(613).wrapping_add(k as u64);
+        let (vs, ne) = run_burst(bseed, n, k % 3 == 0);
+        burst_entities += ne;
+        for (s, m) in vs {
+            // (the parameters in the message make the round replayable, see `replay`)
+            sigs.entry(s).or_insert((0, vec![], format!("burst seed={bseed} n={n} update={}: {m}", k % 3 == 0))).0 += 1;
+        }
+    }
+    samples.push(json!({"burst_rounds": bursts, "entities_collected_by_a_single_collection_after_all_clones_dropped": burst_entities, "largest_burst": burst_max}));
     samples.push(json!({"threaded_trials": cfg.trials, "thread_counts_used": thread_counts, "collections": t_gcs, "collections_while_some_but_not_all_clones_dropped": t_between, "drops": t_drops, "clones": t_clones}));
     let _ = std::fs::create_dir_all(&cfg.replay_dir);
     let mut total = 0;
@@ -732,7 +806,7 @@ pub fn run_check(cfg: &C10Config) -> (usize, Option<String>) {
         "coverage": {
             "evaluations": cfg.sequences + cfg.trials,
             "distinct_nontrivial": distinct,
-            "rule": "apps are assembled in six orders (setup_auto_despawn alone; ReactPlugin; add_reactor or add_world_reactor_with before the plugin; after it; add_reactor alone) and must all collect in `Last`. single-threaded: seeded sequences of prepare/clone/drop/gc/App::update/manual-despawn/reparent/respawn/attach (a clone moved into a component of another entity, so that it is dropped when that entity is despawned, possibly in the middle of a collection) over 6 entities checked after every op against an exact reference-count + hierarchy model; non-trivial = a collection ran while some but not all clones of an entity had been dropped; distinct = distinct applied-op shapes. threaded: 2-15 workers drop/clone 1-50 signals per entity with seeded spins/yields while the main thread collects; judged with two atomic counters (pre <= real count <= post); distinct = distinct per-entity histories of (clone-count bucket, liveness) across collections per thread count. rendezvous: per round 64 entities whose last 2-4 clones are held by 2-4 threads that meet at a spin barrier per entity and drop together while the main thread collects; every entity (and child) must be gone after the final collection; the number of entities whose drop calls really overlapped is measured",
+            "rule": "apps are assembled in six orders (setup_auto_despawn alone; ReactPlugin; add_reactor or add_world_reactor_with before the plugin; after it; add_reactor alone) and must all collect in `Last`. single-threaded: seeded sequences of prepare/clone/drop/gc/App::update/manual-despawn/reparent/respawn/attach (a clone moved into a component of another entity, so that it is dropped when that entity is despawned, possibly in the middle of a collection) over 6 entities checked after every op against an exact reference-count + hierarchy model; non-trivial = a collection ran while some but not all clones of an entity had been dropped; distinct = distinct applied-op shapes. threaded: 2-15 workers drop/clone 1-50 signals per entity with seeded spins/yields while the main thread collects; judged with two atomic counters (pre <= real count <= post); distinct = distinct per-entity histories of (clone-count bucket, liveness) across collections per thread count. rendezvous: per round 64 entities whose last 2-4 clones are held by 2-4 threads that meet at a spin barrier per entity and drop together while the main thread collects; every entity (and child) must be gone after the final collection; the number of entities whose drop calls really overlapped is measured. burst: 1-700 entities (some with a child, 1-3 clones each) lose every clone in a seeded order, then exactly one collection (direct call or one App::update) runs: none gone before it, all gone after it",
             "samples": samples,
             "single_threaded_sequences": cfg.sequences,
             "single_threaded_collections": gcs,
@@ -746,6 +820,9 @@ pub fn run_check(cfg: &C10Config) -> (usize, Option<String>) {
             "rendezvous_rounds": rounds,
             "rendezvous_entities": rv_entities,
             "rendezvous_entities_with_overlapping_final_drops": rv_overlapped,
+            "burst_rounds": bursts,
+            "burst_entities": burst_entities,
+            "largest_burst": burst_max,
             "sanitizer_stages": cfg.stage_notes,
         },
         "assumptions": ["monitor counters are updated with SeqCst atomics on the safe side of every real clone/drop, so the monitor cannot itself be the race", "crossbeam channel and Arc are trusted (covered by the TSan/Miri stages in the thorough tier)"],
@@ -784,6 +861,16 @@ pub fn run_check(cfg: &C10Config) -> (usize, Option<String>) {
 pub fn replay(path: &str) -> bool {
     let s = std::fs::read_to_string(path).expect("cannot read replay file");
     let rf: C10Replay = serde_json::from_str(&s).expect("malformed replay file");
+    // a burst round is deterministic in its three parameters, which the message carries
+    if rf.ops.is_empty() && rf.message.starts_with("burst seed=") {
+        let field = |name: &str| rf.message.split(|c: char| c == ' ' || c == ':').find_map(|w| w.strip_prefix(name).map(|v| v.to_string()));
+        let (Some(sd), Some(n), Some(u)) = (field("seed="), field("n="), field("update=")) else { return false };
+        let (vs, _) = run_burst(sd.parse().unwrap_or(0), n.parse().unwrap_or(1), u == "true");
+        for v in vs.iter() {
+            println!("{}: {}", v.0, v.1);
+        }
+        return vs.iter().any(|v| v.0 == rf.signature);
+    }
     let o = run_seq(&rf.ops);
     for a in o.applied.iter() {
         println!("{a}");
